@@ -129,8 +129,21 @@ def setB (l : Bytes) (i v : Int) : Py Bytes :=
   else if v < 0 ∨ v > 255 then .error .value
   else .ok (l.set j.toNat v.toNat)
 
+/-- `del l[a:b]`: bounds clamped like a slice; nothing is removed when `a >= b` -/
+def delSlice {α} (l : List α) (a b : Int) : List α :=
+  let lo := clampBound l.length a
+  let hi := clampBound l.length b
+  l.take lo ++ l.drop (max lo hi)
+
 /-- `l * n` (repetition) -/
 def repeatL {α} (l : List α) (n : Int) : List α := (List.replicate n.toNat l).flatten
+
+/-- `(a, b, ..).index(x)`: position of the first occurrence, `ValueError` when absent -/
+def indexOf : List Int → Int → Py Int
+  | [], _ => .error .value
+  | a :: l, x => if a = x then .ok 0 else match indexOf l x with
+    | .ok i => .ok (i + 1)
+    | .error e => .error e
 
 /-- `sum(l)` on ints -/
 def sum (l : List Int) : Int := l.foldl (· + ·) 0
